@@ -32,6 +32,9 @@ pub struct RtCase {
     pub keys: Vec<u64>,
     pub more: Vec<HSpec>,
     pub third: Vec<HSpec>,
+    /// registers overwritten through with_registers_and_hash: (position, value) with any u8 value
+    #[serde(default)]
+    pub set_registers: Vec<(u16, u8)>,
 }
 
 pub struct RoundTrip;
@@ -50,6 +53,15 @@ impl Check for RoundTrip {
         }
         for k in &c.keys {
             h.add(k);
+        }
+        if !c.set_registers.is_empty() {
+            // "any HyperLogLog": also register contents that only with_registers_and_hash can produce
+            let mut regs = h.registers().to_vec();
+            for &(pos, v) in &c.set_registers {
+                let i = idx(pos, regs.len());
+                regs[i] = v;
+            }
+            h = HyperLogLog::with_registers_and_hash(b, regs, bh.clone());
         }
         let txt = match serde_json::to_string(&h) {
             Ok(t) => t,
@@ -102,7 +114,7 @@ impl Check for RoundTrip {
             return fail("roundtrip-diverges-after-adds", "after identical adds and a merge the deserialised sketch differs from the original".to_string());
         }
         let nonempty = !c.hashes.is_empty() || !c.keys.is_empty();
-        Verdict::Pass(Info::new(nonempty, hash_json(c)).class_if(nonempty, "nonempty_registers").class_if(b >= 14, "large_b"))
+        Verdict::Pass(Info::new(nonempty, hash_json(c)).class_if(nonempty, "nonempty_registers").class_if(b >= 14, "large_b").class_if(!c.set_registers.is_empty(), "arbitrary_register_values"))
     }
 }
 
@@ -394,8 +406,12 @@ impl Check for Bytes {
 
 fn rt_strategy(tier: Tier) -> BoxedStrategy<RtCase> {
     let bmax = tier.pick(14u8, 18u8);
-    (prop_oneof![4 => 4u8..=8, 2 => 4u8..=bmax, 1 => Just(18u8)], any::<u64>(), prop::collection::vec(hspec(), 0..80), prop::collection::vec(any::<u64>(), 0..20), prop::collection::vec(hspec(), 0..20), prop::collection::vec(hspec(), 0..20))
-        .prop_map(|(b, seed, hashes, keys, more, third)| RtCase { b, seed, hashes, keys, more, third })
+    let setregs = prop_oneof![
+        1 => Just(vec![]),
+        1 => prop::collection::vec((any::<u16>(), prop_oneof![Just(255u8), Just(64), Just(62), Just(61), Just(48), any::<u8>()]), 1..6),
+    ];
+    (prop_oneof![4 => 4u8..=8, 2 => 4u8..=bmax, 1 => Just(18u8)], any::<u64>(), prop::collection::vec(hspec(), 0..80), prop::collection::vec(any::<u64>(), 0..20), prop::collection::vec(hspec(), 0..20), prop::collection::vec(hspec(), 0..20), setregs)
+        .prop_map(|(b, seed, hashes, keys, more, third, set_registers)| RtCase { b, seed, hashes, keys, more, third, set_registers })
         .boxed()
 }
 
@@ -468,7 +484,7 @@ pub fn checks() -> Vec<Box<dyn DynCheck>> {
 }
 
 pub fn run(ctx: &Ctx) {
-    ctx.set_rule("round_trip: b in 4..=18, registers from generated boundary hashes and add(x) keys under a serialisable seeded hasher, through serde_json string and Value; equal sketch, b, registers, hasher, count and identical reaction to further adds and a merge with a third sketch. documents: structurally generated JSON documents with b in {-1,0,3,4..18,19,63,64,70,2^64-1,1.5,\"4\",null} and registers length in {0,1,2^b-1,2^b,2^b+1,2^(b+-1), k*2^b for k in 3..20, k*2^b/2, random < 300} varied independently, register values > 255 / negative, fields omitted, duplicated, reordered, unknown. byte_mutations: golden documents with up to 5 byte/token/slice mutations. Oracle: Err, or Ok(h) with 4<=b<=18 and exactly 2^b registers on which add_hashed, add, count and merge (both directions) do not panic. Non-trivial: round trips with non-empty registers; documents that parse as JSON with all three fields present; mutated inputs that still parse as JSON. Distinct = hash of the case / of the bytes.");
+    ctx.set_rule("round_trip: b in 4..=18, registers from generated boundary hashes and add(x) keys (in half of the cases additionally overwritten with arbitrary u8 values through with_registers_and_hash) under a serialisable seeded hasher, through serde_json string and Value; equal sketch, b, registers, hasher, count and identical reaction to further adds and a merge with a third sketch. documents: structurally generated JSON documents with b in {-1,0,3,4..18,19,63,64,70,2^64-1,1.5,\"4\",null} and registers length in {0,1,2^b-1,2^b,2^b+1,2^(b+-1), k*2^b for k in 3..20, k*2^b/2, random < 300} varied independently, register values > 255 / negative, fields omitted, duplicated, reordered, unknown. byte_mutations: golden documents with up to 5 byte/token/slice mutations. Oracle: Err, or Ok(h) with 4<=b<=18 and exactly 2^b registers on which add_hashed, add, count and merge (both directions) do not panic. Non-trivial: round trips with non-empty registers; documents that parse as JSON with all three fields present; mutated inputs that still parse as JSON. Distinct = hash of the case / of the bytes.");
     ctx.assume("serde_json is the serialisation format exercised; the hasher is a seeded SipHash newtype with derive(Serialize, Deserialize)");
     ctx.run_regressions(&[&RoundTrip, &Docs, &Bytes]);
     let t = ctx.tier;
